@@ -113,6 +113,11 @@ def read_file_using_fast_csv_reader(source: Union[str, StringIO],
         
         offset_pos, written_row_count, is_indices_full, is_values_full, val_full_col_idx = fast_csv_reader(content, start_index, column_inds, column_vals, column_offsets, hasHeader, ESCAPE_VALUE, SEPARATOR_VALUE, NEWLINE_VALUE, WHITE_SPACE_VALUE)
 
+        # no record completed, nothing to regrow and nothing consumed: the window cannot hold the record
+        if not is_indices_full and not is_values_full and offset_pos <= 0:
+            raise ValueError("chunk_row_size {} is too small: a record of the file does not fit into the "
+                             "read window of {} bytes".format(chunk_row_size // 2, chunk_byte_size))
+
         # convert and write
         for ith, i_c in enumerate(index_map):     
             if field_importer_list and field_importer_list[ith]: 
@@ -181,7 +186,9 @@ def fast_csv_reader(source: Union[str, StringIO],
     maxrowcount = np.int64(column_inds.shape[1] - 1)  # -1: minus the first element (0) in the row that created for prefix
     
     index = np.int64(start_index)
-    index_for_end_line = np.int64(0)
+    # the record that starts at start_index is preceded by the line break at start_index - 1: if this call
+    # completes no record, the caller must resume at start_index (not at byte 1 of the window)
+    index_for_end_line = np.int64(start_index) - 1
     
     col_index = np.int64(0)
     row_index = np.int64(-1) if hasHeader else np.int64(0)
